@@ -73,10 +73,11 @@ def extract_steps(trace):
             _apply(store, w1)
             pos += 1
             continue
-        mid = [ev for ev in trace[i + 1:j] if ev.kind in MAY_RAISE]
+        mid = [ev for ev in trace[i + 1:j] if ev.kind in MAY_RAISE or (ev.kind == "ENTER" and ev.func.kind in ("getter", "method", "static"))]
         if mid:
-            problems.append(Problem("W2", mid[0], "may-raise event between the two writes of a link change (%s … %s): "
-                                    "an exception here leaves the two directions inconsistent" % (
+            problems.append(Problem("W2", mid[0], "a call / member access that can fail is evaluated between the two writes of a link "
+                                    "change (%s … %s): an exception there (a hook, or an AttributeError on a node of the other mixin "
+                                    "family) leaves the two directions inconsistent" % (
                                         w1.stmt_text(), w2.stmt_text()),
                                     construct="%s between [%s] and [%s]" % (mid[0].stmt_text(), w1.stmt_text(), w2.stmt_text())))
         wl, wp = (w1, w2) if w1.field == "children" else (w2, w1)
